@@ -206,7 +206,7 @@ func forEachCase(u *unit, fn func(seq int, sc *scope, fr framing) bool) error {
 	seq := 0
 	for di := range dbs {
 		db := &dbs[di]
-		if u.level == 0 && !(strings.HasPrefix(db.name, "odd_") || db.name == "big" || di%7 == 3) {
+		if u.level == 0 && !(strings.HasPrefix(db.name, "odd_") || db.name == "big" || db.name == "id_all" || di%7 == 3) {
 			continue
 		}
 		if quickEmpties && u.level == 2 && len(u.pipe.stages) > 1 && dbEntries(db) == 4 {
@@ -463,6 +463,7 @@ var toggles = []toggle{
 	{class: "sql_engine_vector_agg_without_grouping_keeps_series", apply: func(r *ref.Rules) { r.VectorAggNoGroupPerSeries = true }, sql: true, metric: true},
 	{class: "sql_engine_json_param_path_uses_last_segment", apply: func(r *ref.Rules) { r.JSONParamLastSegmentOnly = true }, sql: true},
 	{class: "sql_engine_label_filter_before_parser_sees_stream_labels", apply: func(r *ref.Rules) { r.LabelFilterBeforeParserOnStreamLabels = true }, sql: true},
+	{class: "sql_engine_label_filter_sees_later_parser", apply: func(r *ref.Rules) { r.LabelFilterSeesLaterParser = true }, sql: true},
 	{class: "sql_engine_label_filter_sees_later_drop", apply: func(r *ref.Rules) { r.LabelFilterSeesLaterDrop = true }, sql: true},
 	{class: "sql_engine_drop_keeps_fingerprint", apply: func(r *ref.Rules) { r.DropNoRekey = true }, sql: true},
 	{class: "sql_engine_bytes_over_time_divided_by_range", apply: func(r *ref.Rules) { r.BytesOverTimeDivByRange = true }, sql: true, metric: true},
